@@ -23,6 +23,8 @@ def main(tier, replay=None):
         dict(name="crash-l2", opts=[M, "msgs=l2", "signals=0", "verdicts=KZD", "reorder=1"], bounds="0,0,1,%d" % (1 if q else 3), total=3 if q else 4, deadline=1800),
         dict(name="term-restart-l3", opts=[M, "msgs=l3", "concl=2", "verdicts=KZ", "reorder=2"], bounds="0,0,0,%d" % (2 if q else 4), total=4, deadline=1800),
     ]
+    # "at most one attempt in flight" rests on there being one daemon: a second qmail-send started against the same queue (while the first runs, or drains after TERM) must refuse
+    fams.append(dict(scn="c02", name="second-daemon-instance", opts=["family=second", "msgs=l1", "signals=0", "verdicts=KD", "reorder=1"], bounds="0,0,0,1", total=1))
     for cl in (0, 1, 2):
         for an in (0, 1, 2, 255):
             fams.append(dict(name="limits-c%d-a%d" % (cl, an), opts=[M, "msgs=l3+r2", "concl=%d" % cl, "concr=%d" % cl, "announce=%d" % an, "signals=0", "verdicts=KZ", "reorder=1", "maxticks=3"], bounds="0,0,0,%d" % (0 if q else 1), total=1))
